@@ -1,7 +1,7 @@
 (* Properties/C12.v — Data() recovers the values the kernel encoded. *)
 From Coq Require Import List Ascii String NArith ZArith Bool Arith.
 Import ListNotations.
-Require Import KV Trim Header Parser ParseProofs ParseBody ParseEnrich.
+Require Import KV Trim Header Parser ParseProofs ParseBody ParseEnrich ParseSockaddr.
 Require Hex.
 
 (* unsafe strings travel as upper-case hex: decoding gives back every byte string *)
@@ -41,6 +41,18 @@ Theorem C12_hex_field_decodes : forall k m bs v0, kv_get (L k) m = Some (Hex.hex
   exists m', hex_field k m = Some m' /\ kv_get (L k) m' = Some (Hex.hex_upper bs, nul_to_space bs).
 Proof. exact hex_field_decodes. Qed.
 
+(* socket addresses written as hex of struct sockaddr: IPv4 (family, dotted address, port in network order) and
+   unix (family, path up to the first NUL), for every address, port and path *)
+Theorem C12_sockaddr_ipv4 : forall p1 p2 a b c d rest, (p1 < 256)%N -> (p2 < 256)%N -> (a < 256)%N -> (b < 256)%N -> (c < 256)%N -> (d < 256)%N ->
+  parse_sockaddr (Hex.hex_upper [byte 2; byte 0; byte p1; byte p2; byte a; byte b; byte c; byte d] ++ rest) =
+    Some [(L "family", L "ipv4");
+          (L "addr", Dec.dec a ++ L "." ++ Dec.dec b ++ L "." ++ Dec.dec c ++ L "." ++ Dec.dec d);
+          (L "port", Dec.dec (p1 * 256 + p2))].
+Proof. exact sockaddr_in4. Qed.
+Theorem C12_sockaddr_unix : forall path junk, forallb (fun x => negb (Ascii.eqb x nul)) path = true ->
+  parse_sockaddr (Hex.hex_upper ([byte 1; byte 0] ++ path ++ nul :: junk)) = Some [(L "family", L "unix"); (L "path", path)].
+Proof. exact sockaddr_unix. Qed.
+
 (* the derived fields follow fixed rules: success= / res= become result=success|fail (and disappear),
    an unset auid / ses becomes "unset", a negative exit code becomes its errno name *)
 Theorem C12_result_rule : forall m o v, kv_get (L "success") m = Some (o, v) ->
@@ -71,6 +83,8 @@ Print Assumptions C12_body_tokenised.
 Print Assumptions C12_fields_extracted.
 Print Assumptions C12_data_keeps_plain_fields.
 Print Assumptions C12_hex_field_decodes.
+Print Assumptions C12_sockaddr_ipv4.
+Print Assumptions C12_sockaddr_unix.
 Print Assumptions C12_result_rule.
 Print Assumptions C12_unset_rule.
 Print Assumptions C12_exit_rule.
